@@ -284,37 +284,6 @@ Section HashModel.
   Definition upd_gen (gs : list table) (gi : nat) (f : table -> table) : list table :=
     match nth_error gs gi with Some t => upd_nth gi (f t) gs | None => gs end.
 
-  (* Remove(filter): GetBegin(); while (iter) { if (filter(ITEM)) iter = Remove(iter); else ++iter; }.
-     Inside one bucket the iterator walks positions count-1 .. 0; Remove(iter) moves the last item into the
-     hole and the returned iterator is pvInc'ed, i.e. continues at position pos-1. *)
-  Fixpoint brem_if (p : item -> bool) (n : nat) (l : list item) (c : Z) : list item * Z :=
-    match n with
-    | O => (l, c)
-    | S n' => if p (nth n' l (0, 0)) then brem_if p n' (bremove n' l) (c + 1) else brem_if p n' l c
-    end.
-  Fixpoint buckets_rem_if (p : item -> bool) (bs : list bucket) (c : Z) : list bucket * Z :=
-    match bs with
-    | [] => ([], c)
-    | b :: r =>
-      match brem_if p (length (items b)) (items b) c with
-      | (l', c1) => match buckets_rem_if p r c1 with (r', c2) => (mkB l' (wasFull b) (bound b) :: r', c2) end
-      end
-    end.
-  Fixpoint gens_rem_if (p : item -> bool) (gs : list table) (c : Z) : list table * Z :=
-    match gs with
-    | [] => ([], c)
-    | t :: r =>
-      match buckets_rem_if p (tbs t) c with
-      | (bs', c1) => match gens_rem_if p r c1 with (r', c2) => (mkT (tlog t) bs' :: r', c2) end
-      end
-    end.
-  (* c = number of Remove(iter) calls = initCount - GetCount() *)
-  Definition hremove_if (s : hset) (p : item -> bool) : hset * Z :=
-    if count s =? 0 then (s, 0) else
-    match gens_rem_if p (gens s) 0 with
-    | (gs, c) => (mkH gs (count s - c) (capacity s), c)
-    end.
-
   (* copy constructor: smallest table from logStart whose capacity suffices, pvAddNogrow of every item in traversal order *)
   Fixpoint copy_log (fuel : nat) (l n : Z) : option Z :=
     if n <=? calcCapacity (2 ^ l) then Some l
@@ -460,24 +429,9 @@ Section HashModel.
   Record world : Type := mkW { wa : hset; wb : hset; wext : option item }.
   Definition winit : world := mkW hinit hinit None.
 
-  (* pvMergeTo: iter = GetBegin(); while (iter) { if (!dst.InsertCrt(key, creator-that-extracts(iter)).inserted) ++iter; }
-     (the extraction of the visited item is the same bucket operation as Remove of that item; an exception of the
-      destination's insert stops the loop: basic guarantee) *)
-  Fixpoint merge_loop (its : list item) (a b : hset) : hset * hset * bool :=
-    match its with
-    | [] => (a, b, true)
-    | (k, v) :: r =>
-      match hfind b k with
-      | Some _ => merge_loop r a b
-      | None => match hadd b (k, v) None with
-                | None => (a, b, false)
-                | Some b' => merge_loop r (fst (step a (ORemove k))) b'
-                end
-      end
-    end.
-
-  (* the same as the code's loop: iter = GetBegin(); while (iter) { if (!dst.InsertCrt(key, extract(iter)).inserted) ++iter; }
-     where the creator's extraction is iter = pvExtract(iter, ...) = Remove(iter) *)
+  (* pvMergeTo: iter = GetBegin(); while (iter) { if (!dst.InsertCrt(key, extract(iter)).inserted) ++iter; }
+     where the creator's extraction is iter = pvExtract(iter, ...) = Remove(iter); an exception of the destination's insert
+     stops the loop (basic guarantee) *)
   Fixpoint merge_m (fuel : nat) (a b : hset) (it : iter) : hset * hset * bool :=
     match fuel with
     | O => (a, b, true)
